@@ -339,6 +339,8 @@ def table_ks(insts):
     for i in insts:
         for k in i.desc.get("tables", []):
             ks.add(k)
+    if ks:
+        ks |= {1, 2, 3}  # the kmer_pos_maps stand-ins of the constructor stubs name the k <= 3 tables
     return sorted(ks)
 
 
@@ -469,6 +471,11 @@ PROPS["C03"] = Prop(
 
 # ---------------------------------------------------------------------------
 # C04
+# the REAL constructor OligoComputer::new runs in the solver (k <= 3); two callees are stubbed
+C04_STUBS = ["kani::stub(rayon::current_num_threads, crate::oligo::verif_c04::one_thread)",
+             "kani::stub(kmer::kmer::KmerGenerator::kmer_pos_maps, crate::oligo::verif_c04::tables_stub)"]
+
+
 def kcount_of(k):
     return (4 ** k + 4 ** (k // 2)) // 2 if k % 2 == 0 else 4 ** k // 2
 
@@ -479,18 +486,18 @@ def c04_instances(tier, seed):
     def counts(k, n, norm, core=True, timeout=1500):
         out.append(Inst("c04_%s_k%d_n%d" % ("norm" if norm else "raw", k, n), "verif_c04", "composition",
                         "c04_counts::<%d, %d, %s>(&RANK_K%d, COUNT_K%d, &OCOL_K%d)" % (k, n, "true" if norm else "false", k, k, k),
-                        max(n + 2, kcount_of(k) + 2),
+                        max(n + 2, kcount_of(k) + 2, MAPU if k <= 3 else 0),
                         {"clause": "row = per-column window counts (%s)" % ("normalised" if norm else "raw"), "k": k, "max_len": n, "len": "symbolic 0..=%d" % n,
                          "column": "symbolic", "tables": [k]}, core=core, timeout=timeout, cost=20.0 * n * (2 if norm else 1) * kcount_of(k),
-                        unwindset=[kmer_loop(n)]))
+                        unwindset=[kmer_loop(n)], attrs=C04_STUBS))
 
     def inv(k, n, mode, core=True, timeout=1500):
         nm = ["revcomp", "case", "tu"][mode]
         out.append(Inst("c04_inv_%s_k%d_n%d" % (nm, k, n), "verif_c04", "composition",
-                        "c04_invariance::<%d, %d, %d>(&RANK_K%d, COUNT_K%d)" % (k, n, mode, k, k), max(n + 2, kcount_of(k) + 2),
+                        "c04_invariance::<%d, %d, %d>(&RANK_K%d, COUNT_K%d)" % (k, n, mode, k, k), max(n + 2, kcount_of(k) + 2, MAPU if k <= 3 else 0),
                         {"clause": "row invariant under " + ["reverse complement", "letter case toggle", "U for T"][mode], "k": k, "max_len": n,
                          "len": "symbolic 0..=%d" % n, "norm": "symbolic", "column": "symbolic", "tables": [k]}, core=core, timeout=timeout,
-                        cost=30.0 * n * kcount_of(k), unwindset=[kmer_loop(n)]))
+                        cost=30.0 * n * kcount_of(k), unwindset=[kmer_loop(n)], attrs=C04_STUBS))
 
     if tier == "quick":
         for k, n in ((1, 4), (2, 5), (3, 5)):
@@ -519,7 +526,8 @@ PROPS["C04"] = Prop(
     functions=["composition::oligo::OligoComputer::vectorise_one (private)", "kmer::kmer::KmerGenerator::{new,next}", "f64 normalisation (IEEE division)"],
     assumptions=COMMON_ASSUME + [HASHMAP_NOTE, BIO_NOTE,
                                  "pos_map is the rank table produced by a native run of the real kmer_pos_maps(k) on the snapshot (C03 decides that table)",
-                                 "the struct is built directly (OligoComputer::new calls rayon::current_num_threads, an FFI Kani cannot model)",
+                                 "k <= 3: the computer is built by the real public constructor OligoComputer::new + set_norm; under Kani rayon::current_num_threads is stubbed (-> 1) and "
+                                 "KmerGenerator::kmer_pos_maps is stubbed by the native tables (C03 decides them); k >= 4: the struct is built directly from the native table; native replays use no stub",
                                  "'correct to 6 decimals' is discharged as bit-equality with the correctly rounded IEEE quotient count/total"],
     outside=["the textual row (format!(\"{:.6}\") - float formatting is not executed)", "file/CLI plumbing, batching, threads", "records longer than max_len",
              "k = 8", "the Python copy of this loop (C13)"],
@@ -540,19 +548,22 @@ PROPS["C04"] = Prop(
 
 # ---------------------------------------------------------------------------
 # C11
+C11_STUBS = ["kani::stub(rayon::current_num_threads, crate::cgr::verif_c11::one_thread)"]
+
+
 def c11_instances(tier, seed):
     out = []
     ns = [0, 1, 2, 3] if tier == "quick" else [0, 1, 2, 3, 4, 5, 6]
     for n in ns:
         out.append(Inst("c11_l%d" % n, "verif_c11", "composition", "c11_body::<%d>()" % n, MAPU,
                         {"clause": "midpoint rule, containment, rejection", "len": n, "bytes": "symbolic 0x00..=0xFF",
-                         "square": "symbolic 1..=2^20"}, core=(n <= 3), timeout=1500 if n <= 3 else 3600, cost=30.0 * n * n + 1, unwindset=[cgr_loop(n)],
+                         "square": "symbolic 1..=2^20"}, core=(n <= 3), timeout=1500 if n <= 3 else 3600, cost=30.0 * n * n + 1, unwindset=[cgr_loop(n)], attrs=C11_STUBS,
                         require_opt=(["opt: rejected record"] if n >= 1 else [])))
     pn = [2, 3] if tier == "quick" else [2, 3, 4, 5]
     for n in pn:
         out.append(Inst("c11_prefix_l%d" % n, "verif_c11", "composition", "c11_prefix::<%d>()" % n, MAPU,
                         {"clause": "prefix determinism", "len": n, "bytes": "symbolic 0x00..=0xFF", "square": "symbolic 1..=2^20"},
-                        core=(n <= 3), timeout=1500 if n <= 3 else 3600, cost=40.0 * n * n, unwindset=[cgr_loop(n)]))
+                        core=(n <= 3), timeout=1500 if n <= 3 else 3600, cost=40.0 * n * n, unwindset=[cgr_loop(n)], attrs=C11_STUBS))
     return out
 
 
@@ -561,7 +572,7 @@ PROPS["C11"] = Prop(
     modules=[Module("composition", "verif_c11", "harness/composition/verif_c11.rs", parent="cgr")],
     functions=["composition::cgr::cgr_maps", "composition::cgr::CgrComputer::vectorise_one (private)"],
     assumptions=[COMMON_ASSUME[0], COMMON_ASSUME[1], HASHMAP_NOTE, BIO_NOTE,
-                 "the struct is built directly from the real cgr_maps (CgrComputer::new calls rayon::current_num_threads)",
+                 "the computer is built by the real public constructor CgrComputer::new; under Kani rayon::current_num_threads is stubbed (-> 1)",
                  "square sizes are integers 1..=2^20 converted to f64 (as the CLI does)"],
     outside=["records longer than the instance lengths (in particular lengths where the midpoints stop being exactly representable)",
              "the batch/file path of CgrComputer::vectorise (I/O, rayon, {} float formatting)", "the Python copy (C13)"],
@@ -584,23 +595,28 @@ PROPS["C11"] = Prop(
 
 # ---------------------------------------------------------------------------
 # C12
+# the REAL constructor OligoCgrComputer::new runs in the solver; two callees are stubbed
+C12_STUBS = ["kani::stub(rayon::current_num_threads, crate::oligocgr::verif_c12::one_thread)",
+             "kani::stub(kmer::kmer::KmerGenerator::kmer_pos_maps, crate::oligocgr::verif_c12::tables_stub)"]
+
+
 def c12_instances(tier, seed):
     out = []
 
     def body(k, n, norm, core=True, timeout=1800):
         out.append(Inst("c12_%s_k%d_l%d" % ("norm" if norm else "raw", k, n), "verif_c12", "composition",
-                        "c12_body::<%d, %d, %s>(&RANK_K%d, &INV_K%d, COUNT_K%d, &OCOL_K%d, &OCANON_K%d)" % (k, n, "true" if norm else "false", k, k, k, k, k),
+                        "c12_body::<%d, %d, %s>(COUNT_K%d, &OCOL_K%d, &OCANON_K%d)" % (k, n, "true" if norm else "false", k, k, k),
                         MAPU,
                         {"clause": "(x,y) = CGR end point of the column's k-mer, f = oligo value (%s)" % ("normalised" if norm else "raw"), "k": k,
-                         "len": n, "square": "symbolic 1..=2^20", "column": "symbolic", "tables": [k]},
-                        core=core, timeout=timeout, cost=50.0 * n * kcount_of(k) + 1, unwindset=[kmer_loop(n), ocgr_kmer_loop(k)]))
+                         "len": n, "square": "symbolic 1..=2^20", "column": "symbolic", "tables": [1, 2, 3]},
+                        core=core, timeout=timeout, cost=50.0 * n * kcount_of(k) + 1, unwindset=[kmer_loop(n), ocgr_kmer_loop(k)], attrs=C12_STUBS))
 
     def rowindep(k, n, core=True, timeout=1800):
         out.append(Inst("c12_rowindep_k%d_l%d" % (k, n), "verif_c12", "composition",
-                        "c12_rowindep::<%d, %d>(&RANK_K%d, &INV_K%d, COUNT_K%d)" % (k, n, k, k, k), MAPU,
+                        "c12_rowindep::<%d, %d>(COUNT_K%d)" % (k, n, k), MAPU,
                         {"clause": "(x,y) of a column is the same in every row", "k": k, "len": n, "square": "symbolic 1..=2^20", "norm": "symbolic",
-                         "column": "symbolic", "tables": [k]}, core=core, timeout=timeout, cost=50.0 * n * kcount_of(k),
-                        unwindset=[kmer_loop(n), ocgr_kmer_loop(k)]))
+                         "column": "symbolic", "tables": [1, 2, 3]}, core=core, timeout=timeout, cost=50.0 * n * kcount_of(k),
+                        unwindset=[kmer_loop(n), ocgr_kmer_loop(k)], attrs=C12_STUBS))
 
     if tier == "quick":
         for n in (0, 1, 3):
@@ -624,10 +640,9 @@ PROPS["C12"] = Prop(
     functions=["composition::oligocgr::OligoCgrComputer::vectorise_one (private)", "composition::oligocgr::OligoCgrComputer::seq_to_kmer (private)",
                "composition::oligocgr::OligoCgrComputer::cgr_maps (private)", "kmer::numeric_to_kmer", "kmer::kmer::KmerGenerator::{new,next}"],
     assumptions=COMMON_ASSUME + [HASHMAP_NOTE, BIO_NOTE,
-                                 "the struct is built directly (OligoCgrComputer::new calls rayon::current_num_threads); its kmers vector is built as `new` builds it "
-                                 "(numeric_to_kmer over the index-to-k-mer table) from the tables of a native run of the real kmer_pos_maps(k)"],
-    outside=["row order / threads / batch limit of vectorise() (I/O + rayon)", "k > 2 (quick) / k > 3 (thorough; k = 2, 3 are optional deepening instances there)", "records longer than k+3",
-             "the wiring inside OligoCgrComputer::new"],
+                                 "the computer is built by the real public constructor OligoCgrComputer::new + set_norm; under Kani rayon::current_num_threads is stubbed (-> 1) and "
+                                 "KmerGenerator::kmer_pos_maps is stubbed by the tables of a native run of the real function on the snapshot (C03 decides those tables); native replays use no stub"],
+    outside=["row order / threads / batch limit of vectorise() (I/O + rayon)", "k > 2 (quick) / k > 3 (thorough; k = 2, 3 are optional deepening instances there)", "records longer than k+3"],
     instances=c12_instances,
     shims=["hashmap", "bio"],
     generate=gen_tables,
@@ -644,6 +659,9 @@ PROPS["C12"] = Prop(
 
 # ---------------------------------------------------------------------------
 # C08
+C08_STUBS = ["kani::stub(rayon::current_num_threads, crate::verif_c08::one_thread)"]
+
+
 def c08_instances(tier, seed):
     out = []
 
@@ -653,7 +671,7 @@ def c08_instances(tier, seed):
                         {"clause": "per-record histogram for any counts table (%s)" % ("normalised" if norm else "raw"), "k": k, "max_len": n,
                          "len": "symbolic 0..=%d" % n, "table_entries": e, "multiplicities": "symbolic u32", "bin_size": "symbolic 1..=2^%d" % maxbin_log2,
                          "bin_count": bins, "bin": "symbolic"}, core=core, timeout=timeout, cost=60.0 * n * e,
-                        unwindset=[kmer_loop(n)]))
+                        unwindset=[kmer_loop(n)], attrs=C08_STUBS))
 
     if tier == "quick":
         inst(2, 4, 2, 3, False, 8)
@@ -677,7 +695,7 @@ PROPS["C08"] = Prop(
     functions=["coverage::CovComputer::vectorise_one (private)", "kmer::kmer::KmerGenerator::{new,next}", "f64 binning (count as f64 / bin_size as f64).floor()"],
     assumptions=COMMON_ASSUME + [HASHMAP_NOTE, BIO_NOTE,
                                  "the counts table is an arbitrary map with <= table_entries distinct keys and arbitrary u32 multiplicities (the table the counter would produce is one of them)",
-                                 "the struct is built directly (CovComputer::new calls rayon::current_num_threads)",
+                                 "the computer is built by the real public constructor CovComputer::new + set_norm; under Kani rayon::current_num_threads is stubbed (-> 1)",
                                  "the oracle's integer quotient floor(c / bin-size) is a fresh variable constrained by q*b <= c < (q+1)*b (division lemma) instead of a 64-bit divider circuit"],
     outside=["build_table (counting + merge + temp-file round trip)", "row order, batching and flush conditions of compute_coverages", "thread-count independence",
              "textual formatting of the row", "records longer than max_len, tables with more entries", "bin sizes above 2^8 in the core instances (2^16 / 2^32 are attempted as optional instances: the solver has to show that floor(fl(c/b)) equals the integer quotient)"],
@@ -730,25 +748,25 @@ def c14_extract(inj, insts):
     rjoin = need(r"let kvec_str = (format!\(\"\{\}\\n\",\s*kvec_str\.join\(&self\.delim\)\));", "the row assembly `format!(\"{}\\n\", kvec_str.join(&self.delim))` (row-length model not applicable to this code)", body, _re.S)
 
     def sub(e):
-        e = e.replace("self.kcount", "kcount").replace("self.delim.len()", "delim_len").replace("self.ksize", "K_UNUSED")
+        e = e.replace("self.kcount", "kcount").replace("self.delim.len()", "delim_len").replace("self.ksize", "k")
         e = e.replace("kvec_str.len()", "row_len").replace("record.n", "n").replace("header.len()", "header_len")
         return e
 
     code = """const NUMBER_SIZE: usize = %s;
     const HEADER_WRITE_POS: usize = %s;
-    fn per_line_size_of(kcount: usize, delim_len: usize) -> usize {
+    fn per_line_size_of(kcount: usize, delim_len: usize, k: usize) -> usize {
         %s
     }
-    fn file_size_of(seq_count: usize, header_on: bool, header_len: usize, delim_len: usize, kcount: usize) -> usize {
-        let per_line_size = per_line_size_of(kcount, delim_len);
+    fn file_size_of(seq_count: usize, header_on: bool, header_len: usize, delim_len: usize, kcount: usize, k: usize) -> usize {
+        let per_line_size = per_line_size_of(kcount, delim_len, k);
         let mut estimated_file_size = { seq_count } %s;
         if header_on {
             estimated_file_size += %s;
         }
         estimated_file_size
     }
-    fn row_offset(n: usize, row_len: usize, header_len: usize, delim_len: usize, kcount: usize) -> usize {
-        let per_line_size = per_line_size_of(kcount, delim_len);
+    fn row_offset(n: usize, row_len: usize, header_len: usize, delim_len: usize, kcount: usize, k: usize) -> usize {
+        let per_line_size = per_line_size_of(kcount, delim_len, k);
         let start_pos = %s;
         %s
     }""" % (number_size, sub(hpos), sub(per_line), sub(tail), sub(hadd), sub(start_pos), sub(pos))
@@ -889,7 +907,7 @@ def c13_instances(tier, seed):
         cgr(2, 0b01)
     else:
         for k in (1, 2, 3):
-            for n in range(0, 5):
+            for n in range(k + 1, 5):
                 oligo(k, n, 0, core=(k <= 2))
             for (n, m) in ((3, 0b001), (3, 0b010), (3, 0b100), (4, 0b0100), (4, 0b1000), (4, 0b0001)):
                 if n - bin(m).count("1") >= k and not (k >= 2 and n == 3):
@@ -1208,4 +1226,38 @@ PROPS["C09"].roles += [
 PROPS["C09"].functions += ["(inductive step) one next() from an arbitrary state satisfying the functional invariant; private fields set/read by an injected child module"]
 PROPS["C09"].assumptions += [
     "inductive-step instances: the pre-state is ANY state satisfying the functional invariant of harness/kmer/verif_c09i.rs (inv), which the same instances prove inductive (base case c09_base_*, step c09_step_*); w-m+1 <= 4",
+]
+
+
+# C18 clause (2) inductive step
+def c18_kmers_step_instances(tier):
+    out = []
+    pairs = [(2, 1, 6), (3, 2, 6), (3, 3, 6)] if tier == "quick" else [(1, 1, 6), (2, 1, 8), (2, 2, 8), (3, 2, 8), (3, 3, 8), (4, 2, 8), (5, 3, 9), (31, 31, 33), (31, 28, 33)]
+    for (w, m, n) in pairs:
+        us = [("kmer/src/kmer_minimisers.rs", BUFF_LOOP, w - m + 3)]
+        out.append(Inst("c18_kmers_step_w%d_m%d_n%d" % (w, m, n), "verif_c18k", "kmer", "c18_kmers_step::<%d, %d, %d>()" % (w, m, n), max(n + 3, 7, w + 2),
+                        {"clause": "(2) ONE INDUCTIVE STEP: the k-mer list attached by one call = canonical w-mers of the valid windows ending at the positions this call consumed; invariants re-established",
+                         "w": w, "m": m, "max_len": n, "len": "symbolic 0..=%d" % n, "state": "symbolic (functional invariant of C09 + k-mer fields assumed)",
+                         "histories": "any number of next() calls (positions consumed by consecutive calls tile the sequence)"},
+                        core=(w <= 3 and n <= 6), timeout=3000, cost=250.0 * n * (w - m + 2), unwindset=us))
+        out.append(Inst("c18_kmers_base_w%d_m%d_n%d" % (w, m, n), "verif_c18k", "kmer", "c18_kmers_base::<%d, %d, %d>()" % (w, m, n), max(n + 3, 7, w + 2),
+                        {"clause": "(2) base case: new() satisfies both invariants", "w": w, "m": m, "max_len": n}, core=(w <= 3 and n <= 6), timeout=900, cost=5.0))
+    return out
+
+
+_c18_prev = c18_instances
+
+
+def c18_instances(tier, seed):  # noqa: F811
+    return _c18_prev(tier, seed) + c18_kmers_step_instances(tier)
+
+
+PROPS["C18"].modules.insert(len(PROPS["C18"].modules) - 1, Module("kmer", "verif_c09i", "harness/kmer/verif_c09i.rs", parent="minimiser"))
+PROPS["C18"]._instances = c18_instances
+PROPS["C18"].roles += [
+    ("(from new) attached k-mers", "wmer-wrong"),
+    ("(from new) a valid window", "wmer-lost"),
+    ("moves backwards or past the end", "position-not-monotone"),
+    ("ends before the end of the sequence", "ends-early"),
+    ("field invariant", "invariant-not-inductive"),
 ]
